@@ -16,6 +16,9 @@ type Explorer struct {
 	MaxExecs int64
 	Deadline time.Time
 	Prio     func(name string) int
+	// LateSite: threads whose pending operation is at such a site are scheduled after all others by
+	// the default policy (e.g. "the peer reads slowly": whoever is about to write to the connection waits)
+	LateSite func(site string) bool
 	// Setup is called before each execution (fresh scenario state); Body runs as thread 0;
 	// Check runs after quiescence while every thread is still parked (so it may inspect anything).
 	Setup func()
@@ -73,7 +76,7 @@ func (e *Explorer) RunOne(prefix []int) *Exec {
 		e.Setup()
 	}
 	x := &Exec{parked: make(chan *Thread), closed: map[uintptr]bool{}, Prefix: prefix, MaxSteps: e.MaxSteps,
-		Prio: e.Prio, written: e.written, KeyFn: e.KeyFn, seen: e.seen, Symmetric: e.Symmetric, Bounded: e.Bound >= 0}
+		Prio: e.Prio, LateSite: e.LateSite, written: e.written, KeyFn: e.KeyFn, seen: e.seen, Symmetric: e.Symmetric, Bounded: e.Bound >= 0}
 	x.run(e.Body)
 	if x.diverged != "" {
 		e.HarnessErr = fmt.Errorf("%s", x.diverged)
